@@ -3,7 +3,7 @@
 //! workload (program families, command mix, faults) and in which oracle's verdict they own.
 
 use crate::capture::Capture;
-use crate::engine::{Check, Report, Tier};
+use crate::engine::{Check, Report, Tier, Violation};
 use crate::gen::{self, GenOpts};
 use crate::gen_script::{gen_script, Ctx, EndStyle, Mix};
 use crate::json::J;
@@ -287,6 +287,19 @@ pub fn session_report(id: &str, cap: &Capture, scenario: &DebugScenario) -> Repo
         report.hit(&format!("probe:family_{}", f));
     }
     report.violations = result.violations;
+    // C10 promises that a stepping command pauses earlier "only at a breakpoint": a pause that
+    // is missed, or made where no breakpoint is, breaks C10 as well as C11
+    if id == "C10" {
+        let mut shared = Vec::new();
+        for v in &report.violations {
+            for class in ["missed-breakpoint", "removed-breakpoint-fired", "spurious-breakpoint"] {
+                if let Some(rest) = v.key.strip_prefix(&format!("C11/{}/", class)) {
+                    shared.push(Violation::new("C10", format!("C10/{}/{}", rest, class), v.detail.clone()));
+                }
+            }
+        }
+        report.violations.extend(shared);
+    }
     report
 }
 
